@@ -218,8 +218,12 @@ Section Book.
                          match acc with
                          | Err e => Err e
                          | Ok s1 =>
-                             match run_body P ts fu false {| s_out := s_out s1; s_ctx := s_ctx s1;
-                                                        s_loc := (v, VStr val) :: L |} body with
+                             match run_body P ts fu false
+                                     {| s_out := s_out s1;
+                                        s_ctx := match k with
+                                                 | KBlockS => p_include P (s_ctx s1) L (c_globals (s_ctx s1))
+                                                 | _ => s_ctx s1 end;
+                                        s_loc := match k with KBlock | KBlockS => [] | _ => (v, VStr val) :: L end |} body with
                              | Ok s2 => Ok {| s_out := s_out s2; s_ctx := s_ctx s1; s_loc := L |}
                              | Err e => Err e
                              end
@@ -236,19 +240,24 @@ Section Book.
     cbn [fold_left]. rewrite IH. reflexivity.
   Qed.
 
-  Lemma scope_fold_book : forall fu v body L vals acc s',
+  Lemma scope_fold_book : forall fu (k : skind) v body L vals acc s',
     fold_left (fun acc val =>
                  match acc with
                  | Err e => Err e
                  | Ok s1 =>
-                     match run_body P ts fu false {| s_out := s_out s1; s_ctx := s_ctx s1; s_loc := (v, VStr val) :: L |} body with
+                     match run_body P ts fu false
+                             {| s_out := s_out s1;
+                                s_ctx := match k with
+                                         | KBlockS => p_include P (s_ctx s1) L (c_globals (s_ctx s1))
+                                         | _ => s_ctx s1 end;
+                                s_loc := match k with KBlock | KBlockS => [] | _ => (v, VStr val) :: L end |} body with
                      | Ok s2 => Ok {| s_out := s_out s2; s_ctx := s_ctx s1; s_loc := L |}
                      | Err e => Err e
                      end
                  end) vals acc = Ok s' ->
     exists s0, acc = Ok s0 /\ s_ctx s' = s_ctx s0.
   Proof.
-    induction vals as [|val r IH]; intros acc s' H; cbn [fold_left] in H.
+    intros fu k v body L vals. induction vals as [|val r IH]; intros acc s' H; cbn [fold_left] in H.
     - exists s'. now split.
     - destruct (IH _ _ H) as [s1 [H1 H2]].
       destruct acc as [s0|e]; [|discriminate].
@@ -274,7 +283,7 @@ Section Book.
     - destruct (get_target ts t) as [tg|]; [|discriminate].
       destruct (if wc then _ else _) as [[o m]|e]; [|discriminate].
       destruct m; try discriminate. injection H as <-. apply from_fold_book.
-    - destruct (scope_fold_book _ _ _ _ _ _ _ H) as [s0 [H0 H1]]. injection H0 as <-. now rewrite H1.
+    - destruct (scope_fold_book _ _ _ _ _ _ _ _ H) as [s0 [H0 H1]]. injection H0 as <-. now rewrite H1.
   Qed.
 
   Lemma run_body_book : forall fuel s body s',
